@@ -94,7 +94,10 @@ class RendezvousConnector:
         # know a connection attempt has been made
         orig = ep.connect
         def connect_wrap(*args, **kw):
-            self._evolve_status(mailbox_connection=Connecting(self._url, self._reactor.seconds()))
+            # we are inside ClientService's own state machine here, which
+            # cannot be stopped re-entrantly: an application that reacts to
+            # this status with close() must be told from a turn of its own
+            self._reactor.callLater(0, self._report_connecting, self._reactor.seconds())
             return orig(*args, **kw)
         ep.connect = connect_wrap
 
@@ -108,6 +111,10 @@ class RendezvousConnector:
         # TODO: use EventualQueue
         d.addErrback(self._initial_connection_failed)
         self._debug_record_inbound_f = None
+
+    def _report_connecting(self, when):
+        if not self._stopping:
+            self._evolve_status(mailbox_connection=Connecting(self._url, when))
 
     def set_trace(self, f):
         self._trace = f
